@@ -306,8 +306,35 @@ func c01ApplyEdits(m *mail.Msg, s *gen.MsgSpec, edits []string) *gen.MsgSpec {
 	}
 	for _, e := range edits {
 		name, arg, _ := strings.Cut(e, ":")
-		idx, _ := strconv.Atoi(arg)
+		idxStr, val, _ := strings.Cut(arg, "=")
+		idx, _ := strconv.Atoi(idxStr)
 		switch name {
+		case "render":
+			// the message is rendered between the edits: later edits act on a Msg that has been written before
+			func() {
+				defer func() { _ = recover() }()
+				_, _ = m.WriteTo(io.Discard)
+			}()
+		case "part-enc":
+			if idx < len(eff.Parts) {
+				m.GetParts()[live[idx]].SetEncoding(mail.Encoding(val))
+				eff.Parts[idx].Enc = val
+			}
+		case "part-charset":
+			if idx < len(eff.Parts) {
+				m.GetParts()[live[idx]].SetCharset(mail.Charset(val))
+				eff.Parts[idx].Charset = val
+			}
+		case "part-type":
+			if idx < len(eff.Parts) {
+				m.GetParts()[live[idx]].SetContentType(mail.ContentType(val))
+				eff.Parts[idx].Type = val
+			}
+		case "part-desc":
+			if idx < len(eff.Parts) {
+				m.GetParts()[live[idx]].SetDescription("description set after assembly")
+				eff.Parts[idx].Desc = "description set after assembly"
+			}
 		case "reverse-attachments":
 			fs := m.GetAttachments()
 			rev := make([]*mail.File, len(fs))
@@ -727,6 +754,13 @@ func runC01(r *ev.Run, rep *ev.ReplayDoc) ev.Summary {
 				if rng.Intn(6) == 0 {
 					e = "set-charset:" + gen.Pick(rng, []string{"ISO-8859-1", "UTF-8", "KOI8-R", "US-ASCII", "ISO-8859-15"})
 				}
+				if rng.Intn(5) == 0 {
+					e = gen.Pick(rng, []string{"part-enc:%d=base64", "part-enc:%d=quoted-printable", "part-charset:%d=ISO-8859-15", "part-charset:%d=UTF-8", "part-type:%d=text/html", "part-desc:%d"})
+					e = fmt.Sprintf(e, rng.Intn(3))
+				}
+				if rng.Intn(3) == 0 {
+					c.Edits = append(c.Edits, "render")
+				}
 				c.Edits = append(c.Edits, e)
 			}
 		}
@@ -745,7 +779,10 @@ func runC01(r *ev.Run, rep *ev.ReplayDoc) ev.Summary {
 					continue
 				}
 				for _, ed := range [][]string{{"reverse-attachments"}, {"reverse-embeds"}, {"unset-attachments"}, {"unset-embeds"}, {"unset-parts"}, {"delete-part:0"}, {"delete-part:1"}, {"delete-part:0", "delete-part:0"},
-					{"part-content:0"}, {"part-content:1"}, {"set-charset:ISO-8859-1"}, {"set-charset:KOI8-R", "add-alternative"}, {"set-charset:UTF-8"}, {"new-body"}, {"add-alternative"}, {"add-attachment"}, {"add-embed"}, {"delete-part:0", "add-alternative"}, {"unset-attachments", "add-attachment"}, {"delete-part:0", "delete-part:0", "add-embed"}} {
+					{"part-content:0"}, {"part-content:1"}, {"set-charset:ISO-8859-1"}, {"set-charset:KOI8-R", "add-alternative"}, {"set-charset:UTF-8"}, {"new-body"}, {"add-alternative"}, {"add-attachment"}, {"add-embed"}, {"delete-part:0", "add-alternative"}, {"unset-attachments", "add-attachment"}, {"delete-part:0", "delete-part:0", "add-embed"},
+					{"render", "part-enc:0=base64"}, {"render", "part-enc:1=quoted-printable"}, {"part-enc:0=quoted-printable"}, {"render", "part-charset:0=ISO-8859-15"}, {"part-charset:1=US-ASCII"},
+					{"render", "part-type:0=text/html"}, {"render", "part-desc:0"}, {"render", "part-content:0"}, {"render", "part-content:1"}, {"render", "delete-part:0"}, {"render", "add-alternative"},
+					{"render", "add-attachment"}, {"render", "unset-attachments"}, {"render", "set-charset:ISO-8859-1", "add-alternative"}, {"render", "part-enc:1=base64", "render", "part-enc:1=quoted-printable"}} {
 					en++
 					rng := r.Rng("c01edit", en)
 					ecases = append(ecases, c01Case{Spec: genSpec(rng, fmt.Sprintf("c01-x%d", en), msgEncs[en%3], p, e, a), Edits: ed})
